@@ -84,10 +84,9 @@ PROPS = {
         technique='contract-based: Kani harness over the complete 5-value domain on the real FromStr impl',
     ),
     'C16': dict(
-        level='proof', verus=['c16_offsets'],
+        level='proof', verus=['c16_offsets', 'c01_parse', 'c09_from_entries'],
         trusted_base=[A_TOOLS, A_EXTRACT, 'hand-written spec vocabulary verus/prelude/{serspec,hdrspec}.rs (definitions only)'],
-        assumptions=['wf(header): |entries| = num_entries and |store| = data_section_size, established by the C01 parse contract '
-                     'and by from_entries (C09); assumed here as the precondition of the boundary lemma',
+        assumptions=['wf(header) is the precondition of the boundary lemma; it is established by the parse functions (unit c01_parse), from_entries (unit c09_from_entries), new_empty and clear - all obligations of this check',
                      'machine arithmetic is NOT treated as mathematical: every + and * in the extracted bodies carries an overflow obligation'],
         explanation='Verbatim bodies of Header::size, padding_required, get_package_segment_offsets proved equal to the '
                     'mathematical segment boundaries of the canonical serialisation; unbounded in entry count and store size.',
